@@ -210,6 +210,19 @@ Qed.
     long; every continuation from a reachable state [s] is at most [rank s]
     steps long; and a schedule that cannot be continued has returned from all
     calls. *)
+Theorem schedules_finite_and_complete_ctx cs ps sched s :
+  progs_ok (length cs) ps = true -> run cfg_fixed (init_ctx cs ps) sched = Some s ->
+  length sched + rank s <= rank (init_ctx cs ps) /\
+  (forall sched2 s2, run cfg_fixed s sched2 = Some s2 -> length sched2 + rank s2 <= rank s) /\
+  (stuck cfg_fixed s = true -> all_done s = true).
+Proof.
+  intros Hp Hr. pose proof (init_ctx_inv cs ps Hp) as I0. pose proof (run_inv sched _ _ I0 Hr) as I.
+  split; [exact (run_rank sched _ _ I0 Hr)|]. split.
+  - intros sched2 s2 H2. exact (run_rank sched2 _ _ I H2).
+  - intros St. pose proof (inv_not_deadlocked s I) as D. unfold deadlocked in D. rewrite St in D. simpl in D.
+    apply negb_false_iff in D. exact D.
+Qed.
+
 Theorem schedules_finite_and_complete nq ps sched s :
   progs_ok nq ps = true -> run cfg_fixed (init nq ps) sched = Some s ->
   length sched + rank s <= rank (init nq ps) /\
